@@ -24,7 +24,7 @@ theorem range_map_get (n : Nat) (f : Nat → α) (k : Nat) : ((List.range n).map
   · simp [h]
 
 theorem evalC_of_evalConst (d : ModDesc) (w : World) (r : Resolver) (i : Instance)
-    (hg : i.globImp = (List.range d.globalImports).map r.global) (e : CExpr) (v : Nat)
+    (hg : i.globImp = (List.range d.globalImports).map r.global) (e : ConstE) (v : Nat)
     (h : evalConst d w r e = some v) : evalC d w.globals i e = .val v := by
   cases e with
   | const b => simp [evalConst] at h; simp [evalC, h]
